@@ -5,9 +5,9 @@ IMPORTS = ["From ZV Require Import Lib.Base Model.IgnoreFile Model.DirWalk."]
 
 HARNESSES = [
     dict(name="archive", pkg_dir="internal/archive", run="TestVerifC15$", files=["internal/archive/zz_verif_c15_test.go"],
-         n_quick=160, n_thorough=2500, case_type="c15acase", mismatch_fn="c15a_mismatches", tag="a"),
+         n_quick=160, n_thorough=1200, case_type="c15acase", mismatch_fn="c15a_mismatches", tag="a"),
     dict(name="dir", pkg_dir="cmd/zoekt-index", run="TestVerifC15$", files=["cmd/zoekt-index/zz_verif_c15_test.go"],
-         n_quick=90, n_thorough=1500, case_type="c15dcase", mismatch_fn="c15d_mismatches", tag="d"),
+         n_quick=90, n_thorough=800, case_type="c15dcase", mismatch_fn="c15d_mismatches", tag="d"),
 ]
 
 RULE = ("archive: 0-7 members (regular / directory / symlink / hard link, fifo, device; names of 1-4 components, leading '/', './', '//', "
@@ -28,7 +28,18 @@ TRUSTED = [
 ]
 
 
+def _replay_seed(ctx):
+    """--replay <file>: the generators are deterministic in (seed, tier, n); re-run with the seed and tier recorded in the
+    replay file's name so that the failing input is derived again (the file itself holds the input in readable form)."""
+    import re
+    if ctx.replay:
+        m = re.search(r"-(quick|thorough)-(\d+)\.json$", ctx.replay)
+        if m:
+            ctx.tier, ctx.seed = m.group(1), int(m.group(2))
+
+
 def run(ctx):
+    _replay_seed(ctx)
     proofs = vf.coq_props(ctx, "C15")
     broken, failures = [], []
     aok, aout = vf.audit()
